@@ -1,5 +1,5 @@
 import sys, math, json
-sys.path.insert(0,'/verif/harness')
+import os; sys.path.insert(0, os.path.dirname(os.path.abspath(__file__)))
 import common, engine_io
 from common import rstr, frac, close, rparse
 from fractions import Fraction
